@@ -214,7 +214,7 @@ func c15SplitDays(out string, dates map[string]bool) [][]string {
 			continue
 		}
 		if len(blocks) == 0 {
-			vFault("C15: output does not start with a date line: %q", ln)
+			vViolate("C15: the register output begins with %q, which is not the heading of any day of the log under the date layout in force", ln)
 		}
 		blocks[len(blocks)-1] = append(blocks[len(blocks)-1], ln)
 	}
